@@ -515,7 +515,11 @@ def slice_dim(f, slicedef, fuzzydim=True):
             newlen = vout.shape[axis]
             newdim = outf.createDimension(dimkey, newlen)
             newdim.setunlimited(unlimited)
-            outf.variables[varkey] = vout
+            # a variable of the new file (the slice of a disk-backed
+            # variable is a bare array without dimensions or attributes)
+            propd = dict([(pk, getattr(var, pk)) for pk in var.ncattrs()])
+            outf.createVariable(varkey, vout.dtype.char, var.dimensions,
+                                values=vout, **propd)
 
     history = getattr(outf, 'history', '')
     history += historydef
